@@ -77,7 +77,7 @@ def upv_obligations(chk, tag="", consts=False):
         e.models["guppylang_internals.tracing.util:get_calling_frame"] = lambda it2, a, k: frame
         e.models["guppylang_internals.ipython_inspect:normalize_ipython_dummy_files"] = lambda it2, a, k: a[0]
         e.ext_models["pathlib.Path"] = Builtin("Path", lambda s: SObj(ClassVal("Path", builtin=True), {"name": s}))
-        ty = SObj(TY, {"copyable": SBool(cop), "droppable": SBool(dro)})
+        ty = SObj(TY, {"copyable": SBool(cop), "droppable": SBool(dro), "linear": SBool(z3.And(z3.Not(cop), z3.Not(dro)))})
         GO = it.lookup_global(e.module(OBJ), "GuppyObject")
         return state, ty, GO
     # ---- update_packed_value: a value handed back by a borrowing call is re-armed (REG preserved)
@@ -106,7 +106,7 @@ def upv_obligations(chk, tag="", consts=False):
             else:
                 GS = it.lookup_global(e.module(OBJ), "GuppyStructObject")
                 fld = SObj(ClassVal("StructField", builtin=True), {"name": "q", "ty": ty})
-                sty = SObj(ClassVal("StructTy", builtin=True), {"fields": [fld], "copyable": SBool(cop), "droppable": SBool(dro)})
+                sty = SObj(ClassVal("StructTy", builtin=True), {"fields": [fld], "copyable": SBool(cop), "droppable": SBool(dro), "linear": SBool(z3.And(z3.Not(cop), z3.Not(dro)))})
                 new = it.call(GO, [sty, "WIRE_S"], {})
                 del outs[1:]
                 packed, want_wire = SObj(GS, {"_ty": sty, "_field_values": {"q": v}, "_frozen": False}), "OUT0"
@@ -137,7 +137,7 @@ def upv_obligations(chk, tag="", consts=False):
             v = it.call(GO, [ty, "WIRE"], {})
             if it.ctx.branch(used0):
                 it.call_method(v, "_use_wire", [None])
-            cty = SObj(TY, {"copyable": SBool(z3.BoolVal(True)), "droppable": SBool(z3.BoolVal(True)), "name": "int"})
+            cty = SObj(TY, {"copyable": SBool(z3.BoolVal(True)), "droppable": SBool(z3.BoolVal(True)), "linear": SBool(z3.BoolVal(False)), "name": "int"})
             outs = ["OUT0", "OUT1"]
             builder = SObj(ClassVal("Builder", builtin=True), {})
             e.ext_models["hugr.ops.UnpackTuple"] = lambda it2, a, k: "UnpackTuple"
@@ -150,7 +150,7 @@ def upv_obligations(chk, tag="", consts=False):
             if shape.startswith("list"):
                 # one element type per array; the obligation only needs the type handed to the slot
                 e.models["guppylang_internals.tys.builtin:get_element_type"] = lambda it2, a, k: a[0].fields["elem"]
-                aty = SObj(TY, {"copyable": SBool(cop), "droppable": SBool(dro), "elem": ty if "obj" in kinds else cty})
+                aty = SObj(TY, {"copyable": SBool(cop), "droppable": SBool(dro), "linear": SBool(z3.And(z3.Not(cop), z3.Not(dro))), "elem": ty if "obj" in kinds else cty})
                 tys = [aty.fields["elem"]] * len(kinds)
                 new = it.call(GO, [aty, "WIRE_A"], {})
                 packed = list(vals)
@@ -159,7 +159,7 @@ def upv_obligations(chk, tag="", consts=False):
                 GS = it.lookup_global(e.module(OBJ), "GuppyStructObject")
                 names = [x.split(":")[0] for x in shape[shape.index("{") + 1:-1].split(",")]
                 flds = [SObj(ClassVal("StructField", builtin=True), {"name": n_, "ty": t_}) for n_, t_ in zip(names, tys)]
-                sty = SObj(ClassVal("StructTy", builtin=True), {"fields": flds, "copyable": SBool(cop), "droppable": SBool(dro)})
+                sty = SObj(ClassVal("StructTy", builtin=True), {"fields": flds, "copyable": SBool(cop), "droppable": SBool(dro), "linear": SBool(z3.And(z3.Not(cop), z3.Not(dro)))})
                 new = it.call(GO, [sty, "WIRE_S"], {})
                 fv = dict(zip(names, vals))
                 packed = SObj(GS, {"_ty": sty, "_field_values": fv, "_frozen": False})
@@ -243,6 +243,40 @@ print(json.dumps(out))
 '''
 
 
+REPLAY_LEAK = r'''
+import tempfile, importlib.util, os, sys, shutil
+from guppylang_internals.error import GuppyError, GuppyComptimeError
+I = INPUT
+src = f"""from hugr import tys as ht
+from guppylang.decorator import guppy
+from guppylang_internals.decorator import custom_type
+@custom_type(ht.Bool, copyable={I['copyable']}, droppable={I['droppable']})
+class R: ...
+@guppy.declare
+def make_r() -> R: ...
+@guppy.comptime
+def created_and_never_used() -> None:
+    r = make_r()
+@guppy.comptime
+def received_and_never_used(r: R) -> None:
+    pass
+"""
+d = tempfile.mkdtemp(dir=os.environ.get("TMPDIR", "/var/tmp")); fn = os.path.join(d, "replay_c22l.py"); open(fn, "w").write(src)
+spec = importlib.util.spec_from_file_location("replay_c22l", fn); m = importlib.util.module_from_spec(spec); sys.modules["replay_c22l"] = m
+spec.loader.exec_module(m)
+res = {}
+for name in ("created_and_never_used", "received_and_never_used"):
+    try:
+        getattr(m, name).compile_function(); res[name] = "compiled"
+    except (GuppyError, GuppyComptimeError) as ex:
+        res[name] = "rejected:" + type(getattr(ex, "error", ex)).__name__
+shutil.rmtree(d, ignore_errors=True)
+want = "compiled" if I["droppable"] else "rejected"
+print(json.dumps({"violates": any(not v.startswith(want) for v in res.values()), "observed": res,
+                  "required": f"a value of a type with copyable={I['copyable']}, droppable={I['droppable']} that is never used: " + ("fine" if I["droppable"] else "leak error")}))
+'''
+
+
 def run(chk):
     e = mk_engine(chk)
     for q in ("GuppyObject.__init__", "GuppyObject._use_wire", "GuppyStructObject.__init__", "GuppyStructObject.__setattr__"):
@@ -257,7 +291,7 @@ def run(chk):
         e.models["guppylang_internals.tracing.util:get_calling_frame"] = lambda it2, a, k: frame
         e.models["guppylang_internals.ipython_inspect:normalize_ipython_dummy_files"] = lambda it2, a, k: a[0]
         e.ext_models["pathlib.Path"] = Builtin("Path", lambda s: SObj(ClassVal("Path", builtin=True), {"name": s}))
-        ty = SObj(TY, {"copyable": SBool(cop), "droppable": SBool(dro)})
+        ty = SObj(TY, {"copyable": SBool(cop), "droppable": SBool(dro), "linear": SBool(z3.And(z3.Not(cop), z3.Not(dro)))})
         GO = it.lookup_global(e.module(OBJ), "GuppyObject")
         return state, ty, GO
 
@@ -280,7 +314,8 @@ def run(chk):
         registered = any(v is o for v in reg.values())
         want = z3.And(z3.Not(dro), z3.Not(used0))
         return z3.And(z3.BoolVal(registered) == want, z3.BoolVal(o.fields["_wire"] == "WIRE" and o.fields["_ty"] is not None))
-    chk.prove_paths("GuppyObject.__init__:registered-as-unused<=>not-droppable/\\not-used", paths, post_init, func=f"{OBJ}:GuppyObject.__init__")
+    chk.prove_paths("GuppyObject.__init__:registered-as-unused<=>not-droppable/\\not-used", paths, post_init, func=f"{OBJ}:GuppyObject.__init__",
+                    replay=lambda m_: {"script": REPLAY_LEAK, "input": {"copyable": bool(z3.is_true(m_.eval(cop, model_completion=True))), "droppable": bool(z3.is_true(m_.eval(dro, model_completion=True)))}})
 
     # ---- _use_wire, first and second use
     def t_use(it):
@@ -378,7 +413,7 @@ def run(chk):
     chk.record("unpack_guppy_object:structs-carry-the-frozen-flag", "GuppyStructObject(ty, field_values, frozen)" in src, "", func=f"{UNP}:unpack_guppy_object", backend="structural")
     chk.must_fail("twin:flags-are-free", [], cop)
     chk.expected_min_obligations = 30
-    chk.assumptions += ["the type's copyable/droppable flags are symbolic attributes (their computation is C14)",
+    chk.assumptions += ["the type's copyable/droppable flags are symbolic attributes (their computation is C14); `linear` is their conjunction of negations as TypeBase.linear defines it",
                         "get_tracing_state / get_calling_frame / pathlib.Path are mocked",
                         "the 12 mutating methods of `list` are taken from the running CPython"]
     chk.not_covered += ["GuppyDefinition / TracingDefMixin calls (trace_call) marking arguments used via _use_wire(called_func)", "update_packed_value: carriers nested deeper than one level (the list case and plain Python components are obligations of C21)"]
